@@ -4,8 +4,10 @@ package main
 
 import (
 	"bytes"
+	"encoding/hex"
 	"fmt"
 	"os"
+	"path/filepath"
 	"testing"
 
 	"github.com/Eyevinn/mp4ff/internal/vsim/props"
@@ -114,6 +116,43 @@ func vsimRun(r *sim.Run) {
 			clear = append(clear, p.ClearSegs[i]...)
 		}
 		r.Event("tool-whole")
+		if t.Chance(80) {
+			// the tool's own run() on real files; the output path already holds an older, longer output (a second run
+			// into the same path): what is there afterwards must be exactly this run's output
+			dir, err := os.MkdirTemp("", "vsim-c06c")
+			if err != nil {
+				panic(sim.HarnessAbort{Msg: err.Error()})
+			}
+			defer os.RemoveAll(dir)
+			in, outp := filepath.Join(dir, "in.mp4"), filepath.Join(dir, "out.mp4")
+			old := make([]byte, len(enc)+1+t.Draw(4096))
+			for i := range old {
+				old[i] = 0x5a
+			}
+			if os.WriteFile(in, enc, 0o644) != nil || os.WriteFile(outp, old, 0o644) != nil {
+				panic(sim.HarnessAbort{Msg: "scratch files"})
+			}
+			var rerr error
+			func() {
+				defer func() {
+					if rec := recover(); rec != nil {
+						rerr = fmt.Errorf("panic: %v", rec)
+					}
+				}()
+				rerr = run([]string{"mp4ff-decrypt", "-key", hex.EncodeToString(key), in, outp})
+			}()
+			if rerr != nil {
+				r.Violate("c06-tool-error", "mp4ff-decrypt run() failed on a valid encrypted file: %v", rerr)
+				return
+			}
+			out, err := os.ReadFile(outp)
+			if err != nil {
+				panic(sim.HarnessAbort{Msg: err.Error()})
+			}
+			r.Probe("run()-into-existing-output")
+			props.C06Check(r, p, "whole file via mp4ff-decrypt run() into an existing output file", clear, out, allFrs, true, false)
+			return
+		}
 		out, claim := vsimDecrypt(r, "file", enc, nil, key, faulty)
 		if claim {
 			props.C06Check(r, p, "whole file via mp4ff-decrypt", clear, out, allFrs, true, false)
